@@ -88,6 +88,35 @@ class GStruct(GraphBase):
         E("construct Visibilities(values)", lambda c: _arr(aa.Visibilities(visibilities=c["in_vis"])))
         E("construct Array1D(native values)", lambda c: _arr(aa.Array1D(values=c["in_arr1"], mask=c["mask1"]).native))
         E("construct Mask2D(bool array)", lambda c: _arr(aa.Mask2D(mask=c["in_mask"], pixel_scales=1.0)))
+        # slim (1D) inputs: the structure may legitimately share memory with the input, but no query may then write to it
+        E("construct Array2D(slim values)", lambda c: _arr(aa.Array2D(values=c["in_slim"], mask=c["mask"]).native))
+        E("construct Kernel2D(slim values, shape_native, normalize)",
+          lambda c: _arr(aa.Kernel2D.no_mask(values=c["in_kern_slim"], shape_native=(3, 3), pixel_scales=1.0, normalize=True).native))
+        E("construct Kernel2D(slim values).normalized", lambda c: _arr(aa.Kernel2D.no_mask(values=c["in_kern_slim"], shape_native=(3, 3), pixel_scales=1.0).normalized.native))
+        E("construct Grid2D(slim values)", lambda c: _arr(aa.Grid2D(values=c["in_grid_slim"], mask=c["mask"]).native))
+        E("construct Visibilities(values)*2 in_array", lambda c: _arr((aa.Visibilities(visibilities=c["in_vis"]) * 2.0).in_array))
+        # structures that were BUILT on the caller's own arrays (no defensive copy by the harness): later queries must not write through
+        E("read own_kern.normalized", lambda c: _arr(c["own_kern"].normalized.native))
+        E("read own_kern.rescaled_with_odd_dimensions_from(0.5)", lambda c: _arr(c["own_kern"].rescaled_with_odd_dimensions_from(rescale_factor=0.5, normalize=True).native))
+        E("read own_a.native then (own_a*2).slim", lambda c: [_arr(c["own_a"].native), _arr((c["own_a"] * 2.0).slim)])
+        E("read own_a.binned.native", lambda c: _arr(c["own_a"].native.slim))
+        E("SimulatorImaging(psf=own_kern).via_image_from(image).data", lambda c: _arr(
+            aa.SimulatorImaging(exposure_time=100.0, psf=c["own_kern"], add_poisson_noise_to_data=False, noise_seed=1).via_image_from(image=c["a_full"]).data.native))
+        # index tables of the mask and of masks derived from it
+        E("read mask.derive_indexes.native_for_slim", lambda c: _arr(c["mask"].derive_indexes.native_for_slim))
+        E("read mask.derive_indexes.unmasked_slim", lambda c: _arr(c["mask"].derive_indexes.unmasked_slim))
+        MI = lambda c, x: aa.Mask2D(mask=_arr(x).copy(), pixel_scales=1.0)  # noqa: E731
+        E("read mask.invert().derive_indexes.native_for_slim", lambda c: _arr(c["mask"].invert().derive_indexes.native_for_slim),
+          lambda c: _arr(MI(c, c["mask"].invert()).derive_indexes.native_for_slim))
+        E("read mask.copy().derive_indexes.native_for_slim", lambda c: _arr(c["mask"].copy().derive_indexes.native_for_slim),
+          lambda c: _arr(MI(c, c["mask"]).derive_indexes.native_for_slim))
+        E("read mask.invert().derive_indexes.edge_slim", lambda c: _arr(c["mask"].invert().derive_indexes.edge_slim),
+          lambda c: _arr(MI(c, c["mask"].invert()).derive_indexes.edge_slim))
+        E("read mask.invert().pixels_in_mask", lambda c: int(c["mask"].invert().pixels_in_mask), lambda c: int(MI(c, c["mask"].invert()).pixels_in_mask))
+        E("read Grid2D.from_mask(mask.invert())", lambda c: _arr(aa.Grid2D.from_mask(mask=c["mask"].invert())),
+          lambda c: _arr(aa.Grid2D.from_mask(mask=MI(c, c["mask"].invert()))))
+        E("read Array2D(values, mask.invert()).native", lambda c: _arr(aa.Array2D(values=c["in_arr"].copy(), mask=c["mask"].invert()).native),
+          lambda c: _arr(aa.Array2D(values=c["in_arr"].copy(), mask=MI(c, c["mask"].invert())).native))
         # --- reads
         E("read a.slim", lambda c: _arr(c["a"].slim))
         E("read a.native", lambda c: _arr(c["a"].native))
@@ -151,6 +180,14 @@ class GStruct(GraphBase):
         c["in_vis"] = r.normal(size=5) + 1j * r.normal(size=5)
         c["in_arr1"] = 1.0 + np.arange(5.0)
         c["in_mask"] = m.copy()
+        nun = int((~m).sum())
+        c["in_slim"] = 2.0 + np.arange(nun, dtype=float)
+        c["in_grid_slim"] = r.normal(size=(nun, 2)) + 1.0
+        c["in_kern_slim"] = np.array([1.0, 2.0, 1.0, 2.0, 4.0, 2.0, 1.0, 2.0, 1.0])
+        c["own_kern_values"] = np.array([1.0, 2.0, 1.0, 2.0, 5.0, 2.0, 1.0, 2.0, 3.0])
+        c["own_kern"] = aa.Kernel2D.no_mask(values=c["own_kern_values"], shape_native=(3, 3), pixel_scales=1.0)
+        c["own_a_values"] = 3.0 + np.arange(nun, dtype=float)
+        c["own_a"] = aa.Array2D(values=c["own_a_values"], mask=mask)
         c["mask1"] = aa.Mask1D(mask=np.array([False, True, False, False, True]), pixel_scales=1.0)
         c["a"] = aa.Array2D(values=c["in_arr"].copy(), mask=mask)
         c["a_full"] = aa.Array2D.no_mask(values=np.arange(36.0).reshape(6, 6) + r.uniform(size=(6, 6)), pixel_scales=1.0)
@@ -164,10 +201,11 @@ class GStruct(GraphBase):
         return c
 
     def roots(self, c):
-        return {k: c[k] for k in ("a", "a_full", "g", "gn", "vec", "kern", "vis", "cmask", "cmask_big", "mask", "mask2", "mask1")}
+        return {k: c[k] for k in ("a", "a_full", "g", "gn", "vec", "kern", "vis", "cmask", "cmask_big", "mask", "mask2", "mask1", "own_kern", "own_a")}
 
     def inputs(self, c):
-        return {k: c[k] for k in ("in_arr", "in_grid", "in_vec", "in_kern", "in_vis", "in_arr1", "in_mask")}
+        return {k: c[k] for k in ("in_arr", "in_grid", "in_vec", "in_kern", "in_vis", "in_arr1", "in_mask", "in_slim", "in_grid_slim",
+                                  "in_kern_slim", "own_kern_values", "own_a_values")}
 
 
 # ======================================================================================== G-rng
@@ -186,8 +224,11 @@ class GRng(GraphBase):
             E("np.random.seed(%d)" % a, (lambda a: lambda c: np.random.seed(a))(a))
         for k in (1, 3):
             E("draw %d numbers" % k, (lambda k: lambda c: (np.random.uniform(size=k), None)[1])(k))
-        for k in (1, 2):
+        for k in (0, 1, 2):
             E("simulate(noise_seed=%d).data" % k, (lambda k: lambda c: self._sim(c, k, "data"))(k))
+        E("preprocess.poisson_noise(seed=0)", lambda c: _arr(aa.preprocess.poisson_noise_via_data_eps_from(
+            data_eps=c["img"], exposure_time_map=c["exp"], seed=0)))
+        E("preprocess.gaussian_noise(seed=0)", lambda c: _arr(aa.preprocess.data_with_gaussian_noise_added(data=c["img"], sigma=0.3, seed=0)))
         E("simulate(noise_seed=1).noise_map", lambda c: self._sim(c, 1, "noise_map"))
         E("preprocess.poisson_noise(seed=1)", lambda c: _arr(aa.preprocess.poisson_noise_via_data_eps_from(
             data_eps=c["img"], exposure_time_map=c["exp"], seed=1)))
@@ -479,6 +520,61 @@ class GFit(GraphBase):
 
 # ======================================================================================== G-defaults
 
+_MUTABLE_DEFAULTS = None
+
+
+def mutable_defaults():
+    """
+    Every object with a __dict__ that is a default argument value of a function or method defined in the autoarray package
+    (SettingsInversion(), Preloads(), OverSamplingDataset(), ...): process-global state shared by all calls that omit the argument.
+    Discovered by walking the package, so a newly introduced shared default is picked up automatically.
+    """
+    global _MUTABLE_DEFAULTS
+    if _MUTABLE_DEFAULTS is not None:
+        return _MUTABLE_DEFAULTS
+    import inspect
+    import pkgutil
+    import importlib
+    import autoarray
+
+    found = {}
+    seen_fn = set()
+
+    def scan(fn, owner):
+        f = getattr(fn, "__func__", fn)
+        f = inspect.unwrap(f) if callable(f) else f
+        if not inspect.isfunction(f) or id(f) in seen_fn:
+            return
+        seen_fn.add(id(f))
+        vals = list(f.__defaults__ or ()) + list((f.__kwdefaults__ or {}).values())
+        for i, val in enumerate(vals):
+            if val is None or isinstance(val, (type, np.ndarray)) or callable(val):
+                continue
+            if hasattr(val, "__dict__") and (type(val).__module__ or "").startswith(("autoarray", "autoconf")):
+                found["default[%s.%s#%d:%s]" % (owner, f.__name__, i, type(val).__name__)] = val
+
+    for mi in pkgutil.walk_packages(autoarray.__path__, "autoarray."):
+        if ".plot" in mi.name or "jax" in mi.name or ".mock" in mi.name:
+            continue
+        try:
+            mod = importlib.import_module(mi.name)
+        except Exception:
+            continue
+        for name, obj in list(vars(mod).items()):
+            if inspect.isfunction(obj) and obj.__module__ == mod.__name__:
+                scan(obj, mod.__name__.split(".")[-1])
+            elif inspect.isclass(obj) and obj.__module__ == mod.__name__:
+                for n2, o2 in list(vars(obj).items()):
+                    if isinstance(o2, (staticmethod, classmethod)):
+                        o2 = o2.__func__
+                    if isinstance(o2, property):
+                        continue
+                    if inspect.isfunction(o2):
+                        scan(o2, obj.__name__)
+    _MUTABLE_DEFAULTS = dict(sorted(found.items()))
+    return _MUTABLE_DEFAULTS
+
+
 
 class GDefaults(GraphBase):
     name = "defaults"
@@ -501,6 +597,13 @@ class GDefaults(GraphBase):
         E("interferometer inversion (own settings) -> data_vector",
           lambda c: _arr(aa.Inversion(dataset=c["ids"], linear_obj_list=self._iobjs(c), settings=c["own_settings"]).data_vector))
         E("read own_settings.use_w_tilde", lambda c: bool(c["own_settings"].use_w_tilde))
+        OSG = lambda ds: [ds.over_sampling.uniform and ds.over_sampling.uniform.sub_size, ds.over_sampling.pixelization and ds.over_sampling.pixelization.sub_size,  # noqa: E731
+                          _arr(ds.grids.pixelization.over_sampler.over_sampled_grid) if ds.over_sampling.pixelization is not None else None]
+        E("dsA.apply_over_sampling(caller's arg) -> schemes", lambda c: OSG(c["dsA"].apply_over_sampling(over_sampling=c["os_arg"])))
+        E("dsB.apply_over_sampling(caller's arg) -> schemes", lambda c: OSG(c["dsB"].apply_over_sampling(over_sampling=c["os_arg"])))
+        E("dsA.apply_over_sampling() -> schemes", lambda c: OSG(c["dsA"].apply_over_sampling()))
+        E("dsB.apply_over_sampling() -> schemes", lambda c: OSG(c["dsB"].apply_over_sampling()))
+        E("read caller's over-sampling arg", lambda c: [c["os_arg"].uniform and c["os_arg"].uniform.sub_size, c["os_arg"].pixelization and c["os_arg"].pixelization.sub_size])
         E("Imaging(over_sampling omitted).grids.pixelization", lambda c: _arr(self._imaging(c).grids.pixelization))
         E("Imaging(over_sampling omitted).apply_over_sampling(sub 2) then new Imaging().grids.pixelization",
           lambda c: (self._imaging(c).apply_over_sampling(over_sampling=aa.OverSamplingDataset(pixelization=aa.OverSamplingUniform(sub_size=2))),
@@ -530,30 +633,23 @@ class GDefaults(GraphBase):
         nm = aa.VisibilitiesNoiseMap(visibilities=np.array([1.0 + 1.0j, 0.5 + 0.7j, 0.8 + 0.6j]))
         c["ids"] = aa.DatasetInterface(data=vis, noise_map=nm, transformer=tr)
         c["own_settings"] = aa.SettingsInversion(use_w_tilde=True, use_positive_only_solver=False, no_regularization_add_to_curvature_diag_value=1e-3)
+        mk = lambda u, p: aa.Imaging(data=fx["ds"].data, noise_map=fx["ds"].noise_map, psf=fx["ds"].psf,  # noqa: E731
+                                     over_sampling=aa.OverSamplingDataset(uniform=aa.OverSamplingUniform(sub_size=u), pixelization=aa.OverSamplingUniform(sub_size=p)))
+        c["dsA"] = mk(2, 2)
+        c["dsB"] = mk(6, 8)
+        c["os_arg"] = aa.OverSamplingDataset(uniform=aa.OverSamplingUniform(sub_size=4))  # pixelization / non_uniform left None
         return c
 
     def _defaults(self):
-        from autoarray.inversion.inversion import factory
-        from autoarray.dataset.imaging import dataset as imds
-        from autoarray.inversion.inversion.imaging import abstract as iabs
-
-        d = {}
-        for fn in (factory.inversion_from, factory.inversion_imaging_from, factory.inversion_interferometer_from):
-            for i, val in enumerate(fn.__defaults__ or ()):
-                if val is not None and hasattr(val, "__dict__"):
-                    d["default[%s#%d:%s]" % (fn.__name__, i, type(val).__name__)] = val
-        for i, val in enumerate(imds.Imaging.__init__.__defaults__ or ()):
-            if val is not None and hasattr(val, "__dict__"):
-                d["default[Imaging.__init__#%d:%s]" % (i, type(val).__name__)] = val
-        return d
+        return mutable_defaults()
 
     def roots(self, c):
-        r = {"ds": c["ds"], "own_settings": c["own_settings"]}
+        r = {"ds": c["ds"], "own_settings": c["own_settings"], "dsA": c["dsA"], "dsB": c["dsB"]}
         r.update(self._defaults())
         return r
 
     def inputs(self, c):
-        d = {"own_settings": c["own_settings"]}
+        d = {"own_settings": c["own_settings"], "caller's over-sampling arg": c["os_arg"]}
         d.update(self._defaults())
         return d
 
